@@ -65,7 +65,9 @@ def plan(ch, tier):
     # seconds; a host that freezes for longer than those is a fault the property does not ask MPF to survive
     knobs["max_stall_index"] = min(knobs["max_stall_index"], 4)
     avail = [k for k, t in TOPOLOGIES.items() if os.path.isdir(os.path.join(VERIF, "machines", t["machine"]))]
-    topo = ch.weighted("topo", [(k, 2 if k == "t9" else 1) for k in avail])
+    topo = ch.weighted("topo", [(k, 2 if k in ("t9", "t8") else 1) for k in avail])
+    if os.environ.get("VERIF_FORCE_TOPO") in avail:      # debugging aid: concentrate a batch on one topology
+        topo = os.environ["VERIF_FORCE_TOPO"]
     nb = ch.pick("nballs", [3, 2, 4, 1])
     nb = TOPOLOGIES[topo].get("nballs", nb)
     wk = {"p_eject_fail": ch.pick("p_eject_fail", [0.0, 0.0, 0.1, 0.3])}
@@ -103,6 +105,11 @@ def plan(ch, tier):
         wk["p_eject_fail"] = ch.pick("p_eject_fail_jam", [0.3, 0.5, 0.1])
     react = {"on": ch.flag("react_add", 0.6 if chain else 0.3), "delay": ch.pick("react_delay", [0.2, 0.1, 0.5, 1.0]),
              "max": 1 + ch.choice("react_max", 3)}
+    if topo == "t8":
+        react["lane_race"] = ch.flag("lane_race", 0.7)
+        react["back"] = ch.pick("lane_back", [0.3, 0.1, 0.8, 1.5])
+        if react["lane_race"]:
+            wk["p_eject_fail"] = ch.pick("p_eject_fail_race", [0.5, 0.3])
     if chain and react["on"]:
         # make fall-backs likely in these runs: the interesting window is "request evaluated while the device's own
         # ball is under way and then comes back"
@@ -239,6 +246,29 @@ def execute(ctx, plan, prop):
     react_left = [(plan.get("react") or {}).get("max", 0)]
     in_workload = [True]
     world.on_coil.append(on_coil)
+
+    def on_kick_to_playfield(info, rec):
+        # a lane that holds more than one ball kicks towards the playfield: a moment later another ball is requested
+        # (the source has to wait for the lane's eject to finish) and a ball in play rolls back into the lane
+        rc = plan.get("react") or {}
+        if not info.target.is_playfield() or info.capacity < 2 or info.mechanical or not rc.get("lane_race"):
+            return
+        if not (react_left[0] > 0 and m.game is not None and in_workload[0]):
+            return
+        react_left[0] -= 1
+
+        def late_request():
+            if can_add() and in_workload[0]:
+                ctx.probe("request_during_lane_eject")
+                pf.add_ball()
+                m.game.balls_in_play += 1
+
+        def roll_back():
+            if in_workload[0] and world.loose_ball_into(info.name, 0):
+                ctx.probe("lane_return_during_lane_eject")
+        sim.after(rc["delay"], late_request)
+        sim.after(rc["delay"] + rc.get("back", 0.3), roll_back)
+    world.on_coil.append(on_kick_to_playfield)
 
     failed_events = []
     broken = set()
